@@ -223,3 +223,256 @@ From BB Require Gen.Effects Proofs.Effects Proofs.EffectsOk.
 Theorem C10_assemble_is_a_function_of_its_inputs : Proofs.Effects.summary_ok Gen.Effects.summary = true.
 Proof. exact Proofs.EffectsOk.summary_ok_holds. Qed.
 Print Assumptions C10_assemble_is_a_function_of_its_inputs.
+
+(* ================================================================================================================================
+   string with backslash escapes, from the SOURCE LINE through the lexer model, the parser model and ALL 16 passes.
+   [Escapes.denote] (Spec/Escapes.v) is what a text DENOTES, written from the documentation of the escape sequences of Python string
+   literals (one-character escapes, octal, \x, \u, \U; unknown escapes stay; malformed ones are None), independent of the code.
+   [Escapes.simple_text]: the fragment the lexer model covers -- ASCII characters, every backslash followed by one of
+   n t r a b f v, backslash, quote, double quote.  For every text of the fragment the line `string <text>` emits exactly the UTF-8
+   encoding (Spec/Utf8.v) of the code points the text denotes. *)
+From BB Require Import Spec.Escapes Proofs.StringEscapes.
+Theorem C10_string_escapes : forall (l : line) (t : string), Escapes.simple_text (map zc (chars t)) = true ->
+  exists cps tok it c,
+    Escapes.denote (map zc (chars t)) = Some cps /\
+    Lexer.lex_tokens (String.append "string " t) = Some ["string"%string; tok] /\
+    Parser.parse_item l ["string"%string; tok] = Parser.FOk it /\
+    Passes.assemble_items [(l, it)] [] [] false =
+      Passes.Done {| Passes.r_chunks := [(l, c)]; Passes.r_consts := []; Passes.r_labels := [] |} /\
+    StringLine.chunk_bytes c = Some (utf8_encode cps).
+Proof. exact StringEscapes.string_escapes_bytes. Qed.
+Print Assumptions C10_string_escapes.
+
+(* non-vacuity, computed: the text  a TAB-escape b backslash-escape n quote-escapes ... ; 97 92 116 98 ... are the characters of the source *)
+Example C10_string_escapes_example :
+  let t := of_codes [97; 92; 116; 98; 92; 92; 110; 92; 34; 113; 92; 39; 92; 110; 92; 114; 92; 97; 92; 98; 92; 102; 92; 118; 32; 35; 44] in
+  Escapes.simple_text (map zc (chars t)) = true /\
+  Escapes.denote (map zc (chars t)) = Some [97; 9; 98; 92; 110; 34; 113; 39; 10; 13; 7; 8; 12; 11; 32; 35; 44] /\
+  exists it, option_map (fun ts => Parser.parse_item {| lfile := "f"; lnum := 7 |} ts) (Lexer.lex_tokens (String.append "string " t)) = Some (Parser.FOk it) /\
+    Passes.assemble_items [({| lfile := "f"; lnum := 7 |}, it)] [] [] false =
+      Passes.Done {| Passes.r_chunks := [({| lfile := "f"; lnum := 7 |}, Passes.CBytes [97; 9; 98; 92; 110; 34; 113; 39; 10; 13; 7; 8; 12; 11; 32; 35; 44])];
+                     Passes.r_consts := []; Passes.r_labels := [] |}.
+Proof.
+  intro t. split; [vm_compute; reflexivity|]. split; [vm_compute; reflexivity|].
+  exists (IString [97; 9; 98; 92; 110; 34; 113; 39; 10; 13; 7; 8; 12; 11; 32; 35; 44]). split; vm_compute; reflexivity.
+Qed.
+
+(* what the lexer model does NOT cover (the real lexer accepts all of these; they are judged by the falsifier only): after a plain
+   ASCII prefix, a backslash followed by anything but the ten letters -- \0 and the other octal escapes, \xHH, \uHHHH, \UHHHHHHHH,
+   \N{name}, unknown escapes such as \q -- or a non-ASCII character (in the model a line is a list of BYTES; a non-ASCII character
+   of the source would be the bytes of its UTF-8 encoding): the model answers None (outside the model: the whole model then yields
+   Unsupported), it never produces a wrong token. *)
+Theorem C10_string_escapes_not_modelled : forall (pre rest : list Ascii.ascii) (e : Ascii.ascii),
+  forallb StringLine.plain_char pre = true ->
+  (Lexer.simple_escape e = None -> Lexer.lex_tokens (String.append "string " (unchars (pre ++ Lexer.c_bsl :: e :: rest))) = None) /\
+  (128 <= zc e -> Lexer.lex_tokens (String.append "string " (unchars (pre ++ e :: rest))) = None).
+Proof.
+  intros pre rest e Hp. split; intro H; apply StringEscapes.lex_string_unsupported; rewrite StringEscapes.chars_unchars.
+  - apply StringEscapes.unicode_escape_outside; assumption.
+  - apply StringEscapes.unicode_escape_nonascii; assumption.
+Qed.
+Print Assumptions C10_string_escapes_not_modelled.
+Example C10_string_escapes_not_modelled_examples :      (* \0   \x41   €   \101   \q   e-acute as UTF-8 bytes; the Spec reads them *)
+  map (fun cs => Lexer.lex_tokens (String.append "string " (of_codes cs)))
+      [[92; 48]; [92; 120; 52; 49]; [92; 117; 50; 48; 97; 99]; [92; 49; 48; 49]; [92; 113]; [195; 169]] = [None; None; None; None; None; None] /\
+  map Escapes.denote [[92; 48]; [92; 120; 52; 49]; [92; 117; 50; 48; 97; 99]; [92; 49; 48; 49]; [92; 113]; [233]] =
+    [Some [0]; Some [65]; Some [8364]; Some [65]; Some [92; 113]; Some [233]].
+Proof. vm_compute. split; reflexivity. Qed.
+
+(* ================================================================================================================================
+   include_bytes on the WHOLE model.  Proofs/Whole.v assemble_model is not defined on a program with an include_bytes line (the
+   parser model has no such branch, the reader model's lines do not carry the path the search found).  Proofs/IncBytesWhole.v
+   extends it WITHOUT changing the Model files: [read_lines_x] = the reader model with every line tagged by Line.include_path,
+   [assemble_model_x] = reader_x -> lexer model -> parser model + the include_bytes branch of asm.parse_item -> the 16 passes; the
+   file opened by resolve_include_bytes is looked up in the same file system.  The extension changes nothing where the whole model
+   was defined: *)
+From BB Require Import Model.Reader Proofs.Whole Proofs.IncBytesPasses Proofs.IncBytesWhole.
+Theorem C10_include_bytes_model_extension : forall fuel fs cwd incs top consts labels compress,
+  IncBytesWhole.erase (read_lines_x fuel fs cwd incs top) = read_lines fuel fs cwd incs top /\
+  (Whole.assemble_model fuel fs cwd incs top consts labels compress <> Whole.WUnsup ->
+   assemble_model_x fuel fs cwd incs top consts labels compress = Whole.assemble_model fuel fs cwd incs top consts labels compress).
+Proof. intros. split; [apply read_lines_x_erase|apply assemble_model_x_conservative]. Qed.
+Print Assumptions C10_include_bytes_model_extension.
+
+(* at the level of the passes: an include_bytes item standing ANYWHERE in ANY program goes through all 16 passes untouched and comes out
+   as the chunk CFile path size, between the chunks of the items before it and those of the items after it (cgrouped: in order, each
+   on the line of its item, by-reference chunks only from include_bytes items); and the run only succeeds if the file opened at
+   resolve time has exactly the announced size *)
+Theorem C10_include_bytes_item : forall A l p sz ac B consts0 labels0 compress r,
+  Passes.assemble_items (A ++ (l, IIncBytes p sz ac) :: B) consts0 labels0 compress = Passes.Done r ->
+  ac = Some sz /\
+  exists cA cB, Passes.r_chunks r = (cA ++ (l, Passes.CFile p sz) :: cB)%list /\ cgrouped A cA /\ cgrouped B cB.
+Proof. exact inc_item_chunk. Qed.
+Print Assumptions C10_include_bytes_item.
+
+(* THE THEOREM.  The source is a file [top]; one of its lines is `include_bytes <name>` (name: ordinary token characters -- no blank,
+   comma, parenthesis, quote or # -- and not "="); the include search -- the -i directories in order, then the directory of the file
+   (C14_lookup) -- finds P.  Then every successful run emits, at that line, exactly the chunk CFile P (size of P): the contents of the
+   file the search found, whatever the working directory holds.  (Any program around it, any flags.) *)
+Theorem C10_include_bytes_whole : forall fuel fs cwd incs top src pre rel post P consts labels compress r,
+  fs_exists fs cwd top = true -> fs_read fs cwd top = Some src ->
+  splitlines src = (pre ++ String.append "include_bytes " rel :: post)%list -> plain_name rel = true ->
+  lookup fs cwd rel (incs ++ [base_dir cwd top]) = Some P ->
+  assemble_model_x fuel fs cwd incs top consts labels compress = Whole.WDone r ->
+  exists data cA cB,
+    fs_read fs cwd P = Some data /\
+    Passes.r_chunks r = (cA ++ ({| lfile := top; lnum := 1 + Z.of_nat (List.length pre) |},
+                                Passes.CFile P (Z.of_nat (String.length data))) :: cB)%list.
+Proof. exact include_bytes_file_canonical. Qed.
+Print Assumptions C10_include_bytes_whole.
+
+(* the general form: ANY line of the reading (of the top file or of a file included to any depth) that the reader tagged with a found
+   path P and that lexes to three tokens  include_bytes <x> <y>  (any spelling of the keyword, any separators) *)
+Theorem C10_include_bytes_whole_general : forall fuel fs cwd incs top consts labels compress A xl B P r,
+  read_lines_x fuel fs cwd incs top = ROk (A ++ xl :: B)%list ->
+  x_inc xl = Some P -> is_inc_line (l_contents (x_line xl)) = true ->
+  assemble_model_x fuel fs cwd incs top consts labels compress = Whole.WDone r ->
+  exists data cA cB,
+    fs_read fs cwd P = Some data /\
+    Passes.r_chunks r = (cA ++ (xl_line xl, Passes.CFile P (Z.of_nat (String.length data))) :: cB)%list /\
+    Forall (fun c => In (fst c) (map xl_line A)) cA /\ Forall (fun c => In (fst c) (map xl_line B)) cB.
+Proof. exact include_bytes_whole. Qed.
+Print Assumptions C10_include_bytes_whole_general.
+(* what a tag means: the line is `raw <size>` for an include_bytes line raw whose file name the search found as P -- in the -i
+   directories in order, then in the directory of the file the line stands in (the working directory for a source string) *)
+Theorem C10_include_bytes_tag : forall fuel fs cwd incs top out,
+  read_lines_x fuel fs cwd incs top = ROk out -> Forall (tag_ok fs cwd incs) out.
+Proof. exact read_lines_x_tags. Qed.
+Print Assumptions C10_include_bytes_tag.
+(* the canonical spelling is one such line *)
+Theorem C10_include_bytes_canonical_line : forall rel n, plain_name rel = true -> 0 <= n ->
+  Lexer.lex_tokens ("include_bytes " ++ rel ++ " " ++ dec_of_Z n) = Some ["include_bytes"; rel; dec_of_Z n]%string /\
+  is_inc_line ("include_bytes " ++ rel ++ " " ++ dec_of_Z n) = true.
+Proof. exact canonical_inc_line. Qed.
+Print Assumptions C10_include_bytes_canonical_line.
+
+(* a file the search does not find is an AssemblerError at the include_bytes line -- already in the whole model of Proofs/Whole.v --
+   whenever the lines in front of it can be read (no earlier reader error); source given as a file ... *)
+Theorem C10_include_bytes_missing : forall fuel fs cwd incs top src pre raw post rel before consts labels compress,
+  fs_exists fs cwd top = true -> fs_read fs cwd top = Some src ->
+  splitlines src = (pre ++ raw :: post)%list ->
+  read_numbered (read_file fuel fs cwd incs) fs cwd top (incs ++ [base_dir cwd top]) (number 1 pre) = ROk before ->
+  is_blank raw = false -> is_include_bytes raw = true -> bytes_target raw = Some rel ->
+  lookup fs cwd rel (incs ++ [base_dir cwd top]) = None ->
+  Whole.assemble_model fuel fs cwd incs top consts labels compress =
+    Whole.WFail (PAsm {| lfile := top; lnum := 1 + Z.of_nat (List.length pre) |}) /\
+  assemble_model_x fuel fs cwd incs top consts labels compress =
+    Whole.WFail (PAsm {| lfile := top; lnum := 1 + Z.of_nat (List.length pre) |}).
+Proof. exact include_bytes_missing_file. Qed.
+Print Assumptions C10_include_bytes_missing.
+(* ... or as a string *)
+Theorem C10_include_bytes_missing_string : forall fuel fs cwd incs top pre raw post rel before consts labels compress,
+  fs_exists fs cwd top = false ->
+  splitlines top = (pre ++ raw :: post)%list ->
+  read_numbered (read_file fuel fs cwd incs) fs cwd "<string>" (incs ++ [cwd]) (number 1 pre) = ROk before ->
+  is_blank raw = false -> is_include_bytes raw = true -> bytes_target raw = Some rel ->
+  lookup fs cwd rel (incs ++ [cwd]) = None ->
+  Whole.assemble_model fuel fs cwd incs top consts labels compress =
+    Whole.WFail (PAsm {| lfile := "<string>"; lnum := 1 + Z.of_nat (List.length pre) |}) /\
+  assemble_model_x fuel fs cwd incs top consts labels compress =
+    Whole.WFail (PAsm {| lfile := "<string>"; lnum := 1 + Z.of_nat (List.length pre) |}).
+Proof. exact include_bytes_missing_string. Qed.
+Print Assumptions C10_include_bytes_missing_string.
+
+(* non-vacuity, computed.  /p/src/main.asm = "db 1 / include_bytes blob.bin / db 2"; blob.bin exists in the -i directory /p/inc only
+   (5 bytes); the working directory /q holds a 2-byte decoy of the same name.  All hypotheses of C10_include_bytes_whole hold, the run
+   succeeds with the found file between the two bytes; the old whole model is undefined here; without -i the line is an AssemblerError
+   at line 2 (hypotheses of C10_include_bytes_missing). *)
+Example C10_include_bytes_whole_example :
+  fs_exists ib_fs "/q" "/p/src/main.asm" = true /\
+  (exists src, fs_read ib_fs "/q" "/p/src/main.asm" = Some src /\
+               splitlines src = (["db 1"] ++ String.append "include_bytes " "blob.bin" :: ["db 2"])%list%string) /\
+  plain_name "blob.bin" = true /\
+  lookup ib_fs "/q" "blob.bin" (["/p/inc"] ++ [base_dir "/q" "/p/src/main.asm"]) = Some "/p/inc/blob.bin"%string /\
+  fs_read ib_fs "/q" "/p/inc/blob.bin" = Some "DATA!"%string /\
+  assemble_model_x 3 ib_fs "/q" ["/p/inc"%string] "/p/src/main.asm" [] [] false =
+    Whole.WDone {| Passes.r_chunks := [(IncBytesWhole.L "/p/src/main.asm" 1, Passes.CBytes [1]);
+                                       (IncBytesWhole.L "/p/src/main.asm" 2, Passes.CFile "/p/inc/blob.bin" 5);
+                                       (IncBytesWhole.L "/p/src/main.asm" 3, Passes.CBytes [2])];
+                   Passes.r_consts := []; Passes.r_labels := [] |} /\
+  Whole.assemble_model 3 ib_fs "/q" ["/p/inc"%string] "/p/src/main.asm" [] [] false = Whole.WUnsup /\
+  (read_numbered (read_file 3 ib_fs "/q" []) ib_fs "/q" "/p/src/main.asm" ([] ++ [base_dir "/q" "/p/src/main.asm"]) (number 1 ["db 1"%string]) =
+     ROk [{| l_file := "/p/src/main.asm"; l_num := 1; l_contents := "db 1" |}] /\
+   is_blank "include_bytes blob.bin" = false /\ is_include_bytes "include_bytes blob.bin" = true /\
+   bytes_target "include_bytes blob.bin" = Some "blob.bin"%string /\
+   lookup ib_fs "/q" "blob.bin" ([] ++ [base_dir "/q" "/p/src/main.asm"]) = None) /\
+  assemble_model_x 3 ib_fs "/q" [] "/p/src/main.asm" [] [] false = Whole.WFail (PAsm (IncBytesWhole.L "/p/src/main.asm" 2)).
+Proof. vm_compute. repeat split; try reflexivity. eexists. split; reflexivity. Qed.
+
+(* ================================================================================================================================
+   string: EVERY documented escape and non-ASCII text.  Outside the lexer model (previous section), so this part rests on an
+   EXTENSION written in Proofs/StringUnicode.v; it is tied to the code by the C10 check itself (tools/data_engine.py
+   check_decode_escapes: decode_escapes_x evaluated by coqc against the real asm.decode_escapes on generated texts, every run).
+   The code (asm.decode_escapes, as repaired for D27) doubles an active backslash in front of a character above U+00FF and then computes
+       text.encode('latin-1','backslashreplace').decode('unicode_escape')
+   on the Python str; [decode_escapes_x s] = denote (blr (dbl s)) models the three stages on code points ([dbl]: the pre-pass; [blr]:
+   characters above U+00FF are spelled as \uXXXX / \UXXXXXXXX escapes; the codec processes exactly the escapes of Spec/Escapes.v on
+   Latin-1 characters); [lex_string_x] = UTF-8 decoding of the source bytes, decode_escapes_x, token = UTF-8 bytes of the result.
+   It agrees with the lexer model wherever that is defined: *)
+From BB Require Import Proofs.StringUnicode.
+Theorem C10_string_extension_conservative : forall t tok,
+  Lexer.lex_tokens (String.append "string " t) = Some ["string"%string; tok] -> lex_string_x t = Some tok.
+Proof. exact lex_string_x_conservative. Qed.
+Print Assumptions C10_string_extension_conservative.
+
+(* the detour through Latin-1 is invisible: for EVERY text of code points up to U+10FFFF (surrogates included: they only matter to the
+   UTF-8 step afterwards) the code's expression yields exactly what the text denotes -- and fails exactly when the text is malformed
+   (or holds \N{name}, which Spec/Escapes.v leaves out) *)
+Theorem C10_string_detour_transparent : forall s : list Z,
+  Forall (fun c => c <= 1114111) s -> decode_escapes_x s = Escapes.denote s.
+Proof. exact decode_x_transparent. Qed.
+Print Assumptions C10_string_detour_transparent.
+(* the two steps: without the pre-pass the detour is invisible only when no ACTIVE backslash stands directly in front of a character above
+   U+00FF ([x_ok]); the pre-pass establishes exactly that and does not change what the text denotes *)
+Theorem C10_string_detour_steps : forall s : list Z,
+  (x_ok s = true -> Forall (fun c => c <= 1114111) s -> Escapes.denote (blr s) = Escapes.denote s) /\
+  x_ok (dbl s) = true /\ Escapes.denote (dbl s) = Escapes.denote s.
+Proof. intro s. split; [apply blr_transparent|]. split; [apply dbl_x_ok|apply dbl_transparent]. Qed.
+Print Assumptions C10_string_detour_steps.
+(* the FORMER code (defect D27, found by the proof obligation above): `string \E` with E = EURO SIGN (or any character above U+00FF).  The text
+   denotes the two characters backslash, E (an unrecognised escape stays as it is: so does a backslash in front of e-acute), i.e. the bytes
+   5c e2 82 ac; without the pre-pass the backslash of the replacement escape was swallowed by the one in front of it and the six ASCII
+   characters backslash u 2 0 a c came out (replay findings/D27-C10-backslash-before-non-latin1.json).  With the pre-pass: the two characters. *)
+Theorem C10_string_detour_former_defect :
+  Escapes.denote [92; 8364] = Some [92; 8364] /\ Escapes.denote (blr [92; 8364]) = Some [92; 117; 50; 48; 97; 99] /\
+  dbl [92; 8364] = [92; 92; 8364] /\ decode_escapes_x [92; 8364] = Some [92; 8364].
+Proof. exact former_defect. Qed.
+Print Assumptions C10_string_detour_former_defect.
+
+(* THE THEOREM: s = the text of the directive (valid code points), cps = what it denotes (valid code points: no lone surrogate from
+   \uD800..\uDFFF -- the real code raises a raw UnicodeEncodeError there).  The source line holds the UTF-8 bytes of s; the extended lexer
+   yields the token with the UTF-8 bytes of cps; the PARSER MODEL and ALL 16 PASSES emit exactly utf8_encode cps. *)
+Theorem C10_string_escapes_unicode : forall (l : Items.line) (s cps : list Z),
+  forallb valid_cp s = true -> Escapes.denote s = Some cps -> forallb valid_cp cps = true ->
+  decode_escapes_x s = Some cps /\
+  lex_string_x (bytes_string (utf8_encode s)) = Some (bytes_string (utf8_encode cps)) /\
+  exists it c,
+    Parser.parse_item l ["string"%string; bytes_string (utf8_encode cps)] = Parser.FOk it /\
+    Passes.assemble_items [(l, it)] [] [] false =
+      Passes.Done {| Passes.r_chunks := [(l, c)]; Passes.r_consts := []; Passes.r_labels := [] |} /\
+    StringLine.chunk_bytes c = Some (utf8_encode cps).
+Proof. exact string_unicode_bytes. Qed.
+Print Assumptions C10_string_escapes_unicode.
+
+(* non-vacuity, computed: e-acute \x41 \u20ac EURO \0 \U0001F600 U+1F600 \q backslash-EURO *)
+Example C10_string_escapes_unicode_example :
+  let s := [233; 92; 120; 52; 49; 92; 117; 50; 48; 97; 99; 8364; 92; 48; 92; 85; 48; 48; 48; 49; 70; 54; 48; 48; 128512; 92; 113; 92; 8364] in
+  let cps := [233; 65; 8364; 8364; 0; 128512; 128512; 92; 113; 92; 8364] in
+  forallb valid_cp s = true /\ Escapes.denote s = Some cps /\ forallb valid_cp cps = true /\
+  utf8_encode cps = [195; 169; 65; 226; 130; 172; 226; 130; 172; 0; 240; 159; 152; 128; 240; 159; 152; 128; 92; 113; 92; 226; 130; 172] /\
+  lex_string_x (bytes_string (utf8_encode s)) = Some (bytes_string (utf8_encode cps)).
+Proof. vm_compute. repeat split; reflexivity. Qed.
+
+(* the proviso [plain_name] on the file name in C10_include_bytes_whole is needed: the reader appends the size to the raw line and the
+   LEXER takes that line apart again.  A file `a,b` is found by the search and yet the line is an AssemblerError (four tokens); a file
+   named `=` turns the line into the constant definition `include_bytes = <size>` and nothing is embedded.  Computed on the extended
+   whole model; the real assembler does the same. *)
+Theorem C10_include_bytes_odd_names :
+  lookup nm_fs "/" "a,b" [base_dir "/" "/p/comma.asm"] = Some "/p/a,b"%string /\
+  assemble_model_x 3 nm_fs "/" [] "/p/comma.asm" [] [] false = Whole.WFail (PAsm (IncBytesWhole.L "/p/comma.asm" 1)) /\
+  lookup nm_fs "/" "=" [base_dir "/" "/p/eq.asm"] = Some "/p/="%string /\
+  assemble_model_x 3 nm_fs "/" [] "/p/eq.asm" [] [] false =
+    Whole.WDone {| Passes.r_chunks := [(IncBytesWhole.L "/p/eq.asm" 2, Passes.CBytes [5])];
+                   Passes.r_consts := [("include_bytes"%string, 5)]; Passes.r_labels := [] |}.
+Proof. exact odd_names. Qed.
+Print Assumptions C10_include_bytes_odd_names.
